@@ -37,6 +37,9 @@ Definition norm_code (c : N) : N := if beq c 1%N then 0%N else c.
 Definition obs_eqb (a b : list event * N) : bool :=
   list_eqb ev_eqb (fst a) (fst b) && beq (norm_code (snd a)) (norm_code (snd b)).
 
+(* 2-5 are the signatures of the four defects repaired in /repo (9bf6a1f, 557c6c5, 3944024,
+   4b4eb8c); they stay so that a regression is reported under its own name, with the stream
+   and segmentation as replay *)
 Definition SIG_EVENTS_DIFFER := 1%N.        (* captured events are not the reference reading *)
 Definition SIG_MEMCACHED_STORAGE := 2%N.    (* memcached storage command: payload framing follows the read boundary *)
 Definition SIG_HTTP_REQUEST_LOST := 3%N.    (* http family: pipelined request lost with the per-request reader *)
